@@ -438,6 +438,35 @@ pub fn random_handshake(rng: &mut Rng) -> (Vec<u8>, String) {
     (hs, format!("{} caps={}", if layout41 { "4.1" } else { "3.20" }, cc))
 }
 
+/// A case whose transport and connection phase are varied at random in every dimension that must
+/// not matter for what the commands are answered with: short writes of many sizes, the handshake
+/// layout and capabilities, the read schedule, the entry point. (Properties about values, metadata,
+/// counts or errors are quantified "in all command sequences / over every transport".)
+pub fn varied_case(rng: &mut Rng, cmds: Vec<Cmd>, scripts: Vec<Script>) -> Case {
+    let mut case = Case::new(cmds, scripts);
+    vary_transport(rng, &mut case);
+    case
+}
+
+/// See `varied_case`; for a case that already exists (fields it sets are overwritten).
+pub fn vary_transport(rng: &mut Rng, case: &mut Case) {
+    let mut r = Rng::for_case(rng.next(), "vary", 0);
+    if r.bool() {
+        case.write_limit = *r.pick(&[65_536usize, 16_384, 4096, 1000, 100, 7, 1]);
+    }
+    if r.bool() {
+        case.handshake = random_handshake(&mut r).0;
+    }
+    case.via_run_on_stream = r.chance(1, 5);
+    if r.chance(1, 3) {
+        let (input, _) = case.input();
+        if input.len() < 100_000 {
+            let sk = *r.pick(&[SchedKind::Random, SchedKind::HeaderCuts, SchedKind::RandomCuts, SchedKind::Fixed]);
+            case.sched = make_sched(&mut r, sk, &input);
+        }
+    }
+}
+
 /// Like `routing_violations` for a connection that ended early with an error: the callbacks seen
 /// must be a prefix of the model's list (each one verbatim), nothing more is demanded.
 pub fn routing_prefix_violations(obs: &Obs, conv: &Conv) -> Vec<(String, String)> {
